@@ -1211,6 +1211,18 @@ func (e *Env) call(x *ECall) *SVal {
 				v = e.evalLoc(x.Args[0])
 			}
 			return scalar(tUPtr, KInt, v.Term)
+		case "chanevents": // ghost: the number of channel operations the executing goroutine has performed
+			return scalar(tInt, KInt, g.heapGet(e.cur, evHeap, SBV64))
+		case "firstrecv", "lastpoll": // ghost: event numbers of channel operations (see exec.go); the channel may be given by its identity (uintptr)
+			v := e.eval(x.Args[0])
+			if v.K != KChan && v.K != KInt {
+				e.fail("%s: not a channel or a channel identity", id.Name)
+			}
+			hn := firstRecvHeap
+			if id.Name == "lastpoll" {
+				hn = lastPollHeap
+			}
+			return scalar(tInt, KInt, sSel(g.heapGet(e.cur, hn, recvSort), v.Term))
 		case "recvcount": // recvcount(ch): ghost, how many values the executing goroutine has taken from channel ch
 			v := e.eval(x.Args[0])
 			if v.K != KChan {
